@@ -6,7 +6,9 @@ Bounded-exhaustive enumeration, exhaustive in the VALUE dimension (executor: har
      255-channel stream to every 13th plus +-3 around 0, 1 and 2 frames), on encoder-made streams with
      1, 2, 3, 6 and 255 channels, a chain whose links have 2, 1 and 3 channels, and three "loud" streams (valid streams whose
      residue codebooks are declared 2^1, 2^17, 2^31 times larger, so that the decoded PCM is far outside +-1);
-     non-positive word sizes; the two chained streams (mono->stereo, stereo->mono->3ch) again on NON-SEEKABLE handles under
+     non-positive word sizes (also probed in every decoder state: after open, data pending, mid-stream, after end of
+     stream, after seeks to total/middle/start; seekable and non-seekable handles, full and half rate: always a negative
+     code, nothing written, position unchanged, following reads unaffected); the two chained streams (mono->stereo, stereo->mono->3ch) again on NON-SEEKABLE handles under
      ASan (channel count per link from construction); negative buffer lengths {-1,-2,-4,-4096,INT_MIN,INT_MIN+1} (probed right after open and
      between ordinary reads, i.e. with decoded data pending; a guarded real buffer sits behind the pointer): error or 0 at
      end of stream, never a positive count, nothing written, position unchanged, following reads still equal the twin.  Every (format, length) case of the 1/2/3/6-channel streams is also run with half-rate
@@ -94,6 +96,7 @@ def streams(tier):
 CHAINLINKS = {}      # chain name -> 'n1:ch1,n2:ch2,..' (construction ground truth, filled by streams())
 STREAMING = ['c17_chain12', 'c17_chain']       # mono->stereo and stereo->mono->3ch, read through NON-SEEKABLE handles under ASan
 STREAM_LENS = [0, 1, 2, 3, 4, 5, 6, 7, 12, 13, 100, 1000, 4096, 65536]
+PROBE_STREAMS = ['c17_m1', 'c17_s2', 'c17_t3', 'c17_chain12', 'c17_chain']   # non-positive word sizes probed in every decoder state
 GAIN_STREAMS = ['c17_m1', 'c17_s2', 'c17_t3']   # 1, 2, 3 channels for the non-idempotent-filter cases
 FILTS = ['gain2', 'gain0.5', 'offset+0.25']
 PATTERNS = ['big_buffer', '100_byte_buffer', 'one_frame_buffer', 'big_with_refused_requests']
@@ -180,6 +183,10 @@ def make_cases(tier, S):
     for f in range(8):          # boundary set through the filter with half-rate decoding on (2-channel carrier)
         for part in range(4):
             pre.append(('G', 'c17_v2', f, part, 4, 1))
+    for name in PROBE_STREAMS:
+        for seekable in (1, 0):
+            for half in (0, 1):
+                pre.append(('P', name, seekable, half))
     for name in GAIN_STREAMS:
         for f in range(8):
             for filt in range(len(FILTS)):
@@ -213,7 +220,7 @@ def classify_failure(c, status, d):
     """-> list of (key, short description) for one failing case (excluding kind-1 runs, handled by the caller)"""
     kind = c[0]
     what = d.get('what', '-')
-    tag = fmt_name(c[2]) if kind in 'TVGSF' else 'word%d' % c[2]
+    tag = fmt_name(c[2]) if kind in 'TVGSF' else ('word%d' % c[2] if kind == 'W' else ('seekable' if c[2] else 'nonseekable') + (':halfrate' if c[3] else ''))
     if kind == 'S':
         tag += ':nonseekable'
     if kind == 'F':
@@ -232,7 +239,7 @@ def classify_failure(c, status, d):
         return out
     if what != '-':
         token = what.split(':')[0]
-        out.append((f'{token}:{c[1]}:{tag}', f'{kind} case on {c[1]} {tag} ' + (f'filter={FILTS[c[3]]} requests={PATTERNS[c[4]]}' if kind == 'F' else f'len={c[3] if kind in "TWS" else c[-1]}') + f': {what}'))
+        out.append((f'{token}:{c[1]}:{tag}', f'{kind} case on {c[1]} {tag} ' + ('' if kind == 'P' else f'filter={FILTS[c[3]]} requests={PATTERNS[c[4]]}' if kind == 'F' else f'len={c[3] if kind in "TWS" else c[-1]}') + f': {what}'))
     for k, lo, hi, got, want in parse_runs(d.get('runs')):
         if k == 2:
             x = bits_float(lo)
@@ -271,6 +278,11 @@ def evaluate(chk, cases, res, S, agg):
                 agg['half_combos'].add((c[2], int(d['maxch'])))
             if kind == 'G':
                 agg['half_filter_calls'] += int(d.get('calls', 0))
+        if kind == 'P' and status in ('ok', 'bad'):
+            agg['word_probes'] += int(d.get('probes', 0))
+            agg['word_probes_einval'] += int(d.get('einval', 0))
+            if status == 'ok' and int(d.get('states', 0)) == (6 if c[2] else 3) and int(d.get('reads', 0)) > 5:
+                agg['probe_combos'].add(c[1:])
         if kind == 'S' and status in ('ok', 'bad'):
             agg['stream_reads'] += int(d.get('reads', 0))
             agg['stream_rej'] += int(d.get('rej', 0))
@@ -338,7 +350,7 @@ def run(tier):
     pre, val = make_cases(tier, S)
     scases = make_stream_cases(tier)
     agg = {'cls': [[0] * len(CLS) for _ in range(8)], 'vjudged': [0] * 8, 'vnan': [0] * 8, 'vslices': [0] * 8, 'vcover': [0] * 8, 'gjudged': 0, 'tjudged': 0, 'tbig': 0,
-           'rej': 0, 'wrej': 0, 'einval': 0, 'reads': 0, 'multi': 0, 'maxch': 0, 'chain_reads': 0, 'half_reads': 0, 'half_combos': set(), 'half_filter_calls': 0, 'negprobes': 0, 'neg_combos': set(), 'stream_reads': 0, 'stream_rej': 0, 'stream_combos': set(),
+           'rej': 0, 'wrej': 0, 'einval': 0, 'reads': 0, 'multi': 0, 'maxch': 0, 'chain_reads': 0, 'half_reads': 0, 'half_combos': set(), 'half_filter_calls': 0, 'negprobes': 0, 'neg_combos': set(), 'word_probes': 0, 'word_probes_einval': 0, 'probe_combos': set(), 'stream_reads': 0, 'stream_rej': 0, 'stream_combos': set(),
            'filter_reads': 0, 'filter_rej': 0, 'filter_samples': 0, 'filter_frames': 0, 'filter_combos': set(), 'filter_refused_combos': set(), 'skipped': [],
            'k1': [{'n': 0, 'nenv': 0, 'contig': [], 'env': [], 'case': None} for _ in range(8)], 'k1twin': {}, 'other': []}
     budget = 150 if tier == 'quick' else 22 * 60
@@ -406,7 +418,7 @@ def run(tier):
     chk.cov.update({
         'distinct_nontrivial': len(combos),
         'exhaustive': exhaustive,
-        'rule': 'cases: S = T on non-seekable handles of the chained streams (ASan build); F = ov_read_filter with a gain/offset filter under a request pattern; T = (stream, format, buffer length[, half-rate]) twin read-through, all 8 formats x lengths 0..2 frames+1, 4096, 65536 x every position reached, '
+        'rule': 'cases: P = non-positive word sizes {0,-1,-2,INT_MIN} x flags x lengths probed in every decoder state of a read-through (stream, seekable, half-rate); S = T on non-seekable handles of the chained streams (ASan build); F = ov_read_filter with a gain/offset filter under a request pattern; T = (stream, format, buffer length[, half-rate]) twin read-through, all 8 formats x lengths 0..2 frames+1, 4096, 65536 x every position reached, '
                 'the 1/2/3/6-channel streams additionally with ov_halfrate(vf,1) on both handles before the first read (ov_pcm_tell must advance 2 per frame); '
                 'W = non-positive word {0,-1,INT_MIN} x 4 lengths; G = slice of the stratified boundary float set through ov_read_filter on a 2- and a 3-channel stream; '
                 'V = contiguous block of float bit patterns through ov_read_filter (%s). '
@@ -423,6 +435,8 @@ def run(tier):
         'multichannel_multiframe_reads': agg['multi'], 'max_channels_read': agg['maxch'], 'reads_over_channel_change': agg['chain_reads'],
         'halfrate_twin_reads': agg['half_reads'], 'halfrate_format_x_channels_combos': len(agg['half_combos']), 'halfrate_filter_calls': agg['half_filter_calls'],
         'negative_length_probes': agg['negprobes'], 'negative_length_format_x_stream_x_rate_combos': len(agg['neg_combos']),
+        'nonpositive_word_state_probes': agg['word_probes'], 'nonpositive_word_state_probes_answered_OV_EINVAL': agg['word_probes_einval'],
+        'nonpositive_word_stream_x_seekable_x_rate_combos': len(agg['probe_combos']),
         'nonseekable_chain_reads_under_asan': agg['stream_reads'], 'nonseekable_small_buffer_refusals': agg['stream_rej'], 'nonseekable_chain_x_format_combos': len(agg['stream_combos']),
         'gain_filter_reads': agg['filter_reads'], 'gain_filter_refused_requests': agg['filter_rej'], 'gain_filter_samples_handed_to_filter': agg['filter_samples'],
         'gain_filter_frames_returned': agg['filter_frames'], 'gain_filter_stream_x_format_x_filter_x_pattern_combos': len(agg['filter_combos']),
@@ -434,7 +448,9 @@ def run(tier):
         'a negative buffer length is a buffer too small for one frame: an error (HEAD: OV_EINVAL) or 0 at end of stream, never a positive count',
         'either tie rule is accepted (|out - x*scale| <= 0.5 before clipping)',
         'word sizes other than 1 and 2, and flag values other than 0/1, are outside the documented interface and not judged',
-        'a too-small buffer / non-positive word at end of stream may answer 0 (EOF) instead of a negative code; in every case nothing may be written',
+        'a too-small buffer (0 <= length < one frame, or negative length) at end of stream may answer 0 (EOF) instead of a negative code (HEAD tests end of stream first); in every case nothing may be written',
+        'a non-positive word size must be answered with a negative code in every state, end of stream included (HEAD: OV_EINVAL before anything else)',
+        'word sizes 3, 4, 8 are accepted by HEAD (packed as 16-bit with a wider stride); they are outside the documented interface (1 or 2) and not judged',
         'little-endian host: the fourth 16-bit loop (little-endian output on a big-endian host) is unreachable here',
         'the float side (ov_read_float) is taken as given; its conformance is C01 territory',
         'the filter callback of ov_read_filter replaces the decoded block; the packing loops after it are the ones ov_read runs (ov_read is ov_read_filter with filter=NULL)',
@@ -448,6 +464,9 @@ def run(tier):
               'half-rate decoding: all 8 formats x {1,2,3,6} channels were read with ov_halfrate on (position must advance 2 per frame), and the filter path ran at half rate')
     chk.guard(len(agg['neg_combos']) == 8 * (len(TWIN) + len(HALF)),
               'negative buffer lengths were probed right after open and between ordinary reads for all 8 formats on every twin stream (1..255 channels), full and half rate')
+    chk.guard(len(agg['probe_combos']) == len(PROBE_STREAMS) * 4 and agg['word_probes'] > 0,
+              'non-positive word sizes were probed after open, with data pending, mid-stream, after end of stream (and after seek to total / middle / start on seekable handles) '
+              'on every probe stream, seekable and non-seekable, full and half rate')
     chk.guard(len(agg['stream_combos']) == 8 * len(STREAMING) and agg['stream_rej'] > 0,
               'non-seekable handles: both chains were read through every link boundary for all 8 formats under ASan, too-small buffers included')
     chk.guard(len(agg['filter_combos']) == len(GAIN_STREAMS) * 8 * len(FILTS) * len(PATTERNS) and len(agg['filter_refused_combos']) == len(GAIN_STREAMS) * 8 * len(FILTS)
